@@ -18,6 +18,7 @@ import (
 	"go/token"
 	"os"
 	"path/filepath"
+	"sort"
 	"strconv"
 	"strings"
 )
@@ -162,6 +163,7 @@ type facts struct {
 	WaitDelaySet      bool     `json:"wait_delay_set"`
 	CancelHook        bool     `json:"cancel_hook"`
 	OwnGroup          bool     `json:"own_group"`
+	EntryPoints       []string `json:"entry_points"`
 	ExecSeq           []string `json:"exec_seq"`
 	EndOkIffNil       bool     `json:"end_ok_iff_nil"`
 	OutputPlain       bool     `json:"output_plain"`
@@ -480,6 +482,33 @@ func setsWaitDelay(p *pkg) bool {
 	return found
 }
 
+// publicEntryPoints: every exported function of the package, and every exported method of Subprocess, which takes the
+// loggers (a parameter of type logs.Loggers): these are the ways a caller hands over the start / success / failure
+// messages or obtains the end message. Sorted; methods as "Subprocess.Name".
+func publicEntryPoints(p *pkg) []string {
+	var out []string
+	for name, f := range p.funcs {
+		base := f.Name.Name
+		if !ast.IsExported(base) {
+			continue
+		}
+		if f.Recv != nil && !strings.HasPrefix(name, "Subprocess.") {
+			continue
+		}
+		takes := false
+		for _, prm := range f.Type.Params.List {
+			if src(prm.Type) == "logs.Loggers" {
+				takes = true
+			}
+		}
+		if takes {
+			out = append(out, name)
+		}
+	}
+	sort.Strings(out)
+	return out
+}
+
 // ---- executor.go, messaging.go ----
 
 func executor(sub *pkg, F *facts) {
@@ -751,12 +780,13 @@ func main() {
 	logging(sub, plat, &F)
 	wrapper(sub, &F)
 	F.WaitDelaySet = setsWaitDelay(sub)
+	F.EntryPoints = publicEntryPoints(sub)
 	executor(sub, &F)
 	procErrors(pr, &F)
 
 	var b strings.Builder
 	b.WriteString("(* GENERATED by translator-c18/cmd/subproc2coq from utils/subprocess/*.go (linux build),\n   utils/proc/errors.go and utils/platform/os.go of the working tree. Do not edit. *)\n")
-	b.WriteString("From Coq Require Import List ZArith Bool.\nImport ListNotations.\nFrom GU Require Import C18.Facts.\nLocal Open Scope Z_scope.\n\n")
+	b.WriteString("From Coq Require Import List ZArith Bool String.\nImport ListNotations.\nFrom GU Require Import C18.Facts.\nLocal Open Scope Z_scope.\n\n")
 	b.WriteString("Definition gen_facts : facts := {|\n")
 	fmt.Fprintf(&b, "  sep := %d;\n  loop_ops := %s;\n  tail_ops := %s;\n  flush_ops := %s;\n", F.Sep, coqList(F.LoopOps), coqList(F.TailOps), coqList(F.FlushOps))
 	fmt.Fprintf(&b, "  lp_resets := %s;\n  lp_drops_empty := %s;\n  lp_by_stream := %s;\n  stdout_flag := %s;\n  stderr_flag := %s;\n", coqBool(F.LpResets), coqBool(F.LpDropsEmpty), coqBool(F.LpByStream), coqBool(F.StdoutFlag), coqBool(F.StderrFlag))
@@ -768,6 +798,11 @@ func main() {
 		rs[i] = "(" + r.Cond + ", " + r.Act + ")"
 	}
 	fmt.Fprintf(&b, "  conv_ctx_first := %s;\n  rules := [%s]\n|}.\n", coqBool(F.ConvCtxFirst), strings.Join(rs, ";\n            "))
+	eps := make([]string, len(F.EntryPoints))
+	for i, e := range F.EntryPoints {
+		eps[i] = fmt.Sprintf("%q%%string", e)
+	}
+	fmt.Fprintf(&b, "\n(* the public entry points of the package which take the loggers / messages (driven one by one by harness/cmd/c18) *)\nDefinition gen_entry_points : list String.string :=\n  [%s].\n", strings.Join(eps, ";\n   "))
 	writeIfChanged(filepath.Join(out, "Gen.v"), b.String())
 	js, _ := json.MarshalIndent(F, "", " ")
 	writeIfChanged(filepath.Join(out, "gen_facts.json"), string(js)+"\n")
